@@ -107,22 +107,25 @@ def run(ck):
                 lemmas.append((lid, f'Lemma c_{lid} : Rabs ({term} - {coq_R(float(Kf[a, b]))}) <= {coq_R(2e-9)}.\nProof. kern_closed. kern_simpl. interval with (i_prec 50). Qed.'))
                 lmeta[lid] = desc
         # AGOP: block restricted
-        nout = int(rng.integers(1, 3))
-        coefs = rng.standard_normal((nout, nrows))
-        try:
-            with xr.quiet():
-                Ad = dense.get_agop(T(X), T(Z), T(coefs), mt).double().numpy()
-                Af = fast.get_agop(T(X), T(Z), T(coefs), mt).double().numpy()
-        except Exception as e:
-            ck.notes.append(f'get_agop raised on {desc}: {e!r}'[:200]); continue
         mask = np.zeros((d, d), dtype=bool)
         for idx in [num_idx] + cat_idx:
             mask[np.ix_(idx, idx)] = True
-        # the fast path's gradients come from the fast kernel only through get_function_grads (dense formula on the expanded inputs)
-        devA = float(np.max(np.abs(Af - np.where(mask, Ad, 0.0))))
-        if devA > 1e-8 * (1 + float(np.abs(Ad).max())):
-            ck.violation(f'{kn}: categorical AGOP differs from the dense AGOP restricted to the blocks by {devA:.3g} on {desc}', dict(desc, dev=devA),
-                         key=json.dumps(dict(site='agop-blocks', kernel=kn)))
+        # 1-3 outputs, gradient centring off and on (the same option is passed to both paths)
+        for nout, centring in ((int(rng.integers(1, 3)), False), (3, True), (1, True)):
+            coefs = rng.standard_normal((nout, nrows))
+            try:
+                with xr.quiet():
+                    Ad = dense.get_agop(T(X), T(Z), T(coefs), mt, center_grads=centring).double().numpy()
+                    Af = fast.get_agop(T(X), T(Z), T(coefs), mt, center_grads=centring).double().numpy()
+            except Exception as e:
+                ck.notes.append(f'get_agop raised on {desc}: {e!r}'[:200]); continue
+            ck.count(f'agop outputs={nout} centring={centring}')
+            # the fast path's gradients come from the fast kernel only through get_function_grads (dense formula on the expanded inputs)
+            devA = float(np.max(np.abs(Af - np.where(mask, Ad, 0.0))))
+            if devA > 1e-8 * (1 + float(np.abs(Ad).max())):
+                ck.violation(f'{kn}: categorical AGOP differs from the dense AGOP restricted to the blocks by {devA:.3g} ({nout} outputs, centring={centring}) on {desc}',
+                             dict(desc, dev=devA, nout=nout, centring=centring, coefs=coefs.tolist()),
+                             key=json.dumps(dict(site='agop-blocks', kernel=kn, centring=centring)))
     res = ck.run_lemma_files('cat', kreal.RHEADER, lemmas, shard=3, timeout=900)
     bad = [lmeta[k] for k, v in res.items() if not v]
     ck.obligation(f'correspondence: {len(lemmas)} fast-path kernel entries within tolerance of the Coq dense op-sequence model on the one-hot rows (interval-certified)',
